@@ -129,3 +129,15 @@ Theorem c05_refused_no_effect : forall w i req draws w' rc ex d', (i < length (w
   parse_cmd w i req draws = (w', CStatus rc ex, d') -> rc < 0 -> w' = w /\ d' = draws.
 Proof. exact refused_no_effect. Qed.
 Print Assumptions c05_refused_no_effect.
+
+(* the SETFH command trxcon emits carries exactly the hopping list it was given - HSN, MAIO, then '<rx kHz> <tx kHz>' of EVERY channel
+   in order - or trxcon returns an error and queues nothing (a channel without a frequency, or more text than the 999 characters of
+   room in ma_buf[1000]: 63 channels of the DCS / PCS bands) *)
+From OBB Require Import Proofs.TrxIfSetfhP.
+Theorem c05_setfh_carries_exactly_the_list : forall hsn maio ma rc q,
+  c_phyif_cmd (PSetFreqH1 hsn maio ma) = CmdQ rc q ->
+  (rc = 0 -> ma <> [] /\ Forall freq_defined ma /\ Z.of_nat (length (setfh_pairs ma)) <= 999 /\
+             q = [(true, c_ctrl_cmd v_SETFH (dec_u (u8 hsn) ++ [SP] ++ dec_u (u8 maio) ++ [SP] ++ removelast (setfh_pairs ma)))]) /\
+  (rc <> 0 -> q = [] /\ (ma = [] \/ ~ Forall freq_defined ma \/ 999 < Z.of_nat (length (setfh_pairs ma)))).
+Proof. exact setfh_carries_list. Qed.
+Print Assumptions c05_setfh_carries_exactly_the_list.
